@@ -97,6 +97,66 @@ def c07(ctx):
 ALL_GROUPS = [8, 16, 32, 64]
 
 
+def replay_mask_graphs(ctx):
+    """TLC -> code: the complete state graph of the one-register mask machine (Gen_Mask.tla) for N in {1,2,4,8},
+    one implementation test per transition, replayed on every mask type with N lanes in every configuration."""
+    import json
+    import os
+    import re
+    import subprocess
+    from . import build, tlc
+    scripts = {}
+    for n in (1, 2, 4, 8):
+        cfg = mc_cfg(['N = %d' % n], view='View').replace('CHECK_DEADLOCK FALSE', 'ACTION_CONSTRAINT Emit\nCHECK_DEADLOCK FALSE')
+        r = tlc.model_check('Gen_Mask', cfg, ctx.scratch, 'genmask%d' % n, workers=1)
+        if not r['ok']:
+            raise tlc.TLCError('Gen_Mask failed')
+        edges = re.findall(r'<<"EDGE", (\d+), "(\w+)", (\d+), (\d+), (\d+)>>', r['output'])
+        path = os.path.join(ctx.scratch, 'genmask%d.txt' % n)
+        with open(path, 'w') as f:
+            for e in edges:
+                f.write('%s %s %s %s %s\n' % e)
+        scripts[n] = (path, len(edges))
+        ctx.ev['states'] += r['states']
+        ctx.ev['transitions'] += len(edges)
+        ctx.ev['mc_runs'].append({'module': 'Gen_Mask', 'tag': 'N=%d' % n, 'distinct_states': r['states'], 'states_generated': r['generated'], 'edges_for_replay': len(edges)})
+    jobs = [('%s/%s' % (c.name, g), c, 'replay_mask.cpp', ['VH_GROUP=%s' % g]) for c in ctx.cfgs for g in ALL_GROUPS]
+    ctx.log('building %d replayers ...' % len(jobs))
+    exes = build.build_many(jobs)
+    total = 0
+    from concurrent.futures import ThreadPoolExecutor
+
+    def one(item):
+        tag, exe = item
+        res = []
+        for n, (path, cnt) in scripts.items():
+            out = os.path.join(ctx.scratch, 'rpm_%s_%d.ndjson' % (tag.replace('/', '_'), n))
+            p = subprocess.run([exe, path, str(n), out], stdout=subprocess.PIPE, stderr=subprocess.PIPE, universal_newlines=True, timeout=1800)
+            if p.returncode != 0:
+                raise runner.facts.DriverError('replay_mask failed: %s %s' % (tag, p.stderr[-500:]))
+            with open(out) as f:
+                res.append((tag, n, [json.loads(l) for l in f if l.strip()]))
+        return res
+
+    with ThreadPoolExecutor(max_workers=16) as ex:
+        results = [x for sub in ex.map(one, exes.items()) for x in sub]
+    replayed = 0
+    for tag, n, lines in results:
+        bad = 0
+        for e in lines:
+            if e['e'] == 'summary':
+                replayed += e['replayed']
+            else:
+                bad += 1
+                ev = dict(e)
+                ev['k'] = 'm'
+                ctx.classify(ev, [(tag, '%s:0:replay_%s' % (e['t'], e['observer']))])
+        if not bad and lines and lines[-1]['replayed']:
+            ctx.ev['traces_validated_against_impl'] += 1
+    ctx.ev['tlc_transitions_replayed_on_code'] = replayed
+    ctx.log('replayed %d TLC-generated transitions on the real mask types' % replayed)
+
+
 def c03(ctx):
     ctx.assumptions += LANE_ASSUME + [
         'masks wider than 16 lanes (8 in the quick tier) are exercised on structured + random patterns, not all 2^N values',
@@ -111,7 +171,10 @@ def c03(ctx):
 
     def conf():
         runner.lane_facts(ctx, 'drv_mask.cpp', 'maskfacts', ALL_GROUPS)
+        runner.lane_facts(ctx, 'drv_int.cpp', 'tomask', INT_GROUPS)       # mask(vector): lane != 0
+        runner.lane_facts(ctx, 'drv_fp.cpp', 'fmask', FP_GROUPS)          # float: compares unequal to zero; Vector(mask) = 1.0 / 0.0
         runner.ordered_traces(ctx, 'drv_mask.cpp', 'maskrm', ALL_GROUPS, 'TraceMask', '.rm')
+        replay_mask_graphs(ctx)
     _with_mc(ctx, mc, conf)
 
 
@@ -506,3 +569,36 @@ def c19(ctx):
 
 
 CHECKS['C19'] = c19
+
+
+# ----------------------------------------------------------------------
+# setup: warm the content-addressed build cache for the quick tier
+# ----------------------------------------------------------------------
+def warm(args=None):
+    import sys
+    from . import build, configs
+    q = configs.quick_configs()
+    jobs = []
+    for c in q:
+        for g in INT_GROUPS:
+            for src in ('drv_int.cpp', 'drv_mask.cpp', 'drv_mem.cpp', 'drv_denom.cpp', 'drv_conv.cpp'):
+                jobs.append(('%s/%s/%s' % (src, c.name, g), c, src, ['VH_GROUP=%s' % g]))
+        for g in FP_GROUPS:
+            jobs.append(('drv_fp/%s/%s' % (c.name, g), c, 'drv_fp.cpp', ['VH_GROUP=%s' % g]))
+        jobs.append(('drv_prefetch/%s' % c.name, c, 'drv_prefetch.cpp', ['VH_GROUP=0']))
+    for c in configs.scalar_configs('quick'):
+        for g in INT_GROUPS:
+            jobs.append(('s_int/%s/%s' % (c.name, g), c, 'drv_int.cpp', ['VH_GROUP=%s' % g]))
+        for g in FP_GROUPS:
+            jobs.append(('s_fp/%s/%s' % (c.name, g), c, 'drv_fp.cpp', ['VH_GROUP=%s' % g]))
+    for c in alloc_configs('quick'):
+        jobs.append(('alloc/%s' % c.name, c, 'drv_alloc.cpp', ['VH_GROUP=0'], [],
+                     ['-Wl,--wrap=malloc,--wrap=free,--wrap=posix_memalign,--wrap=aligned_alloc']))
+    print('warming build cache: %d driver binaries ...' % len(jobs))
+    sys.stdout.flush()
+    try:
+        build.build_many(jobs)
+    except build.BuildError as e:
+        print('WARNING: a driver failed to build during setup (checks will report it):', str(e)[:500])
+    print('build cache ready')
+    return 0
